@@ -29,20 +29,8 @@ CLAIMED = {
              "findings were repaired in /repo and are regression inputs now.",
         ref="DESIGN.md 5/C03", tech="Rocq proof (parser half: all token layouts and streams; scanner half: flow text sub-language, text -> events) + spec-derived renderer oracle on implementation + differential correspondence; block-structure scanner half partial"),
     "C05": dict(
-        text="14 theorems against an independent specification of YAML 1.2.2 section 8.1 (Spec/BlockScalar.v: line model, content "
-             "indentation, classification, block_value, a renderer; imports nothing from the model; the spec's examples 8.2-8.13 are "
-             "Examples). For the scanner model over the string input and ALL inputs of the stated class: the content-line reader appends "
-             "exactly the line text through both the buffered and the raw path; skip_spaces_to / skip_block_scalar_indent (narrow and "
-             "wide path) / first-line auto-detection consume min(k, indent) spaces and count blank lines; C05_block_scalar_partial: "
-             "scan_block_scalar returns block_value for literal and folded style, the three chompings, explicit (1-9, either indicator "
-             "order) or auto-detected indentation incl. 0, any header tail, all line lists with at least one content line, LF breaks, "
-             "followed by a less-indented line, end of input or '...'; the same when the input ends right after the last content line; "
-             "and for content-less scalars. The full statement C05_full (all shapes, contexts, back-ends) is stated and machine-REFUTED "
-             "by the recorded findings. Not theorems: CR/CRLF breaks, buffered back-ends. Oracle/tie: 30k (thorough 600k) generated cases "
-             "(style x chomping x indentation x context x header tail x break style x end shape x line content) - every scalar of the "
-             "stream must equal the extracted spec's value on str, iterator and capacity-8 inputs; model vs implementation on three "
-             "back-ends. Known findings: clip/keep at end of input after a last line of spaces only; '---' inside a zero-indented scalar.",
-        ref="DESIGN.md 5/C05", tech="Rocq proof (scan_block_scalar = independent block_value spec, LF inputs with content, string input) + extracted spec as oracle on implementation + differential correspondence; CR/CRLF and buffered partial"),
+        text="15 theorems against an independent specification of YAML 1.2.2 section 8.1 (Spec/BlockScalar.v: line model, content indentation, classification, block_value, renderer, decidable side conditions case_ok; imports nothing from the model; the spec's examples 8.2-8.13 are Examples). For the scanner model over the string input and the three line-break styles LF / CR LF / CR: content-line reader (buffered and raw path), indentation skipping (narrow and wide path), first-line auto-detection; scan_block_scalar returns block_value for literal and folded style, the three chompings, explicit or auto-detected indentation incl. 0, any header tail, ALL line lists with content followed by a less-indented line, end of input, or at indentation 0 a document marker '...' or '---'; every end-of-input shape (right after the last content line, inside a last line of fewer / exactly / more spaces than the indentation); content-less scalars; C05_case_partial: every case of the specification outside one class, from any scanner state at the indicator. The full statement C05_full stays visible and is machine-REFUTED by the one remaining recorded class (a top-level scalar whose first content line starts with a tab at column 0). Not theorems: contexts in front of the indicator, buffered back-ends (C10 transfers). Oracle/tie: 30k (thorough 600k) generated cases (style x chomping x indentation x context x header tail x break style x end shape x line content) - every scalar must equal the extracted spec's value on str, iterator and capacity-8 inputs; directed regression list for the three repaired classes (001a921, 42046c7).",
+        ref="DESIGN.md 5/C05", tech='Rocq proof (scan_block_scalar = independent block_value spec, all cases from the indicator on, LF/CRLF/CR, string input) + extracted spec as oracle on implementation + differential correspondence'),
     "C06": dict(
         text="42 theorems. Parser layer, for EVERY token stream: an accepted stream is bracket-balanced (second invariant Good/first_ok "
              "carried through all 21 parser states next to C02's Inv) modulo the one recorded swallowed-closer rule, so no accepted stream "
@@ -57,15 +45,8 @@ CLAIMED = {
              "flow continuation at block indentation; multi-line flow pair key after a flow mapping.",
         ref="DESIGN.md 5/C06", tech="Rocq proof (bracket-balance invariant over all token streams; per-site rejection theorems; refutation of the full statement) + damage-operator rejection oracle on implementation + differential correspondence"),
     "C04": dict(
-        text="15 theorems: the GENERATED escape table of scanner.rs agrees pair by pair, in both directions, with an independently written "
-             "table of YAML 1.2 named escapes (an edited match arm breaks the proof on the next run); hex digit values and read_hex for "
-             "every digit list; \\x/\\u/\\U of every Unicode scalar value decode to it, other values are rejected; the character loop of "
-             "quoted scalars returns exactly the text for ALL words (both quote styles, '' -> ', any sequence of literal/named/numeric "
-             "escapes); whole scan_flow_scalar for ALL single-line escape-free texts with blanks anywhere, from any state. Multi-line "
-             "folding and plain scalars are not theorems (C04_quoted_full open; C04_plain_full machine-REFUTED by the recorded findings). "
-             "Tie/oracle: target strings x independent presenters (escapes, folds, padding) x 18 syntactic contexts on two back-ends, model "
-             "pipeline vs implementation. Known findings: indented '---'/'...' inside a plain scalar; ' -' before a flow indicator.",
-        ref="DESIGN.md 5/C04", tech="Rocq proof (escape table agreement via generated table; hex decoding; quoted-scalar loops, all texts) + presenter-based round-trip oracle + differential correspondence; folding/plain partial"),
+        text="19 theorems against an independent specification (Spec/FlowFold.v: escapes, break_text/fold_lines, presentations of plain, single- and double-quoted scalars with well-formedness, rendering and denoted text; imports nothing from the model). The GENERATED escape table of scanner.rs agrees pair by pair, in both directions, with the specification's table (an edited match arm breaks the proof on the next run); hex digits and read_hex for every digit list; \\x/\\u/\\U of every Unicode scalar value. C04_full_proved: for the scanner model over the string input, EVERY presentation the productions allow - any number of lines, folded breaks with trailing padding, empty lines, tabs after the required indentation, breaks written LF / CR / CR LF, escaped breaks, escapes, doubled quotes, block and flow context - followed by anything that may end the scalar, from any scanner state with a smaller indentation, is scanned to exactly the specified text (one break -> space, k+1 breaks -> k line feeds, blanks around a break dropped, an escaped break joins without a space): scan_plain_scalar (C04_plain_full_proved) and scan_flow_scalar (C04_quoted_full_proved). Not theorems: the buffered input (C10 transfers), tokens -> events (C02/C03/C07). Tie/oracle: target strings x independent presenters (escapes, folds, padding, LF/CR/CRLF) x 18 syntactic contexts on two back-ends, model pipeline vs implementation; regression stream for the two repaired findings (263b504, 0b5f0e0). No open known finding.",
+        ref="DESIGN.md 5/C04", tech='Rocq proof (escape table agreement via generated table; hex decoding; scan_plain_scalar and scan_flow_scalar return the specified text for ALL allowed presentations) + presenter-based round-trip oracle + differential correspondence'),
     "C11": dict(
         text="8 theorems (partial by nature: bytes of stack are not expressible in a model): the pull parser's continuation stack tracks the "
              "number of open collections for EVERY token stream (heap, not call stack); the recursion depth of the push loader model and of "
@@ -77,15 +58,8 @@ CLAIMED = {
         ref="DESIGN.md 5/C11", tech="Rocq proof (depth = recursion depth; flow bound; refutation of a block bound) + child-process depth sweep with bisection",
         note="Partial by nature: the 8 MiB limit and frame sizes are runtime facts observed by exit status only."),
     "C16": dict(
-        text="18 theorems: resolve_tag equals the spec's expand on the parser's table for every handle shape (error exactly for an undeclared "
-             "named handle); the directive loop yields merge T (decls run) for EVERY run of directive tokens, errors exactly on a duplicate "
-             "non-empty handle or a repeated %YAML, never exhausts its fuel; document end clears the table iff keep_tags is false; every "
-             "other state leaves it alone; percent-decoding: for every byte sequence accepted by an independently written strict UTF-8 "
-             "decoder (every Unicode scalar value) the scanner model returns that character and consumes 3n characters; the tokens "
-             "scan_tag/scan_directive produce satisfy the theorems' shape hypotheses. Tie/oracle: directive sets x tag spellings x "
-             "documents x keep_tags vs a Python and the extracted Coq rendering of the spec; model vs implementation. Known finding: "
-             "overlong UTF-8 escapes are decoded (machine-checked refutation of strictness).",
-        ref="DESIGN.md 5/C16", tech="Rocq proof (resolve_tag = expand; directive loop = table_of; UTF-8 percent-decoding, all code points) + spec oracle on implementation + differential correspondence"),
+        text="42 theorems. resolve_tag = expand on the parser's table; the directive loop yields merge T (decls run) for EVERY run of directive tokens, errors exactly on a duplicate handle or repeated %YAML, never exhausts its fuel; document end clears the table iff keep_tags is false and nothing else touches it. PERCENT-DECODING, strict (repaired by 990db80): on every scanner state scan_uri_escapes equals the specification's reader - a byte sequence is accepted iff it is the UTF-8 encoding of a Unicode scalar value (shortest form, no surrogates, <= U+10FFFF) and then yields that value; errors 50-53 exactly otherwise; never out of fuel, never a panic; spec-level strictness, round trip and injectivity. TEXT LEVEL: the character classes of char_traits equal the YAML productions on every code point; every tag text scans to one Tag token with handle and decoded suffix, every %TAG line to one TagDirective token; scanner + parser composed: '%TAG !name! prefix / --- !name!suffix x' resolves to (decoded prefix, decoded suffix) for ALL such texts, any number of %TAG lines, whichever line declares the handle; a redeclared handle is an error at that line; undecodable escapes are errors at the tag. Not at text level: several documents, keep_tags carry-over, tags inside flow collections in the pipeline theorems, the buffered back-end. Tie/oracle: directive sets x tag spellings x node shapes x document sequences x keep_tags against a Python and the extracted Coq rendering of the specification; overlong-escape regression sweep; model vs implementation. No open known finding.",
+        ref="DESIGN.md 5/C16", tech='Rocq proof (directive table semantics for all token runs; strict UTF-8 percent-decoding both directions; scanner and scanner+parser theorems at text level) + specification oracle on implementation + differential correspondence'),
     "C07": dict(
         text="13 theorems, all full: the loader model refines an independent tree specification build_docs for EVERY document list "
              "(generalised stack lemma by induction on event trees: sequences in order, key/value pairing, aliases as copies of the "
@@ -103,14 +77,8 @@ CLAIMED = {
              "spans, ==/hash on real inputs and synthetic sentences. Known finding: {0.0, -0.0} keys keep different key objects.",
         ref="DESIGN.md 5/C19", tech="Rocq proof (span erasure, deferred+resolve = eager, all event lists) + differential correspondence across node types and modes"),
     "C09": dict(
-        text="9 theorems over an emitter model whose tables are regenerated from emitter.rs: need_quotes s = false => the resolver reads s "
-             "back as the same string (breaks if the resolver disjunct leaves need_quotes); shape facts of unquoted strings; every "
-             "escape_str entry decodes back under the scanner's generated escape table, and escape_body round-trips for ALL strings; "
-             "decimal text of any i64 resolves to that integer; machine-checked refutation witnesses for the recorded multiline/long-key "
-             "classes. The tree-level statement C09_full is stated, not proved. Tie: model-emitted text == implementation text on every "
-             "case; oracle on the implementation: reload == original and re-emission idempotent, 4 settings, exhaustive small strings in "
-             "every position + random trees. Seven known-finding classes (multiline_strings literal blocks; keys > 1024 chars).",
-        ref="DESIGN.md 5/C09", tech="Rocq proof (scalar-level round-trip facts, all strings; generated tables) + emitter-model correspondence + round-trip oracle on implementation; tree level partial"),
+        text="15 theorems. need_quotes s = false => the resolver reads s as the string s; every escape_str entry decodes back under the scanner's generated table and escape_body round-trips for ALL strings; decimal text of any i64 resolves to it; (K1-K5 repaired by 35b43be) for every string the emitter chooses the literal-block form for, block_value of the emitted block (independent spec of C05) is the string, with the side conditions case_ok; (G1 repaired by 4a46740) every key written in implicit form is one line of at most SIMPLE_KEY_MAX characters; every scalar node in every position is a Scalar presentation of itself in the block-layout language Spec/BlockLayout.v; C09_tree_is_layout_document_partial: for every well-formed tree and all four settings the emitted text is a Doc of the layout language denoting the tree (induction on the tree); C09_full_from_layout_reader_partial reduces the full round trip to ONE named statement (layout_reader_spec: the loading pipeline reads every document of the layout language as the tree it denotes), which is not proved. Assumption named in the trusted base: the text Rust's Debug prints for an f64 (float_text_ok, evaluated on every sampled case). Tie/oracle: model-emitted text = implementation text on every case; reload = original and re-emission idempotent under 4 settings: strings exhaustive <= 3/<= 4 over 20 symbols in every position, 38-atom combinations, line families, random Unicode, boundary numbers, long keys, random trees to depth 5 with complex keys (450k / 6.7M evaluations). No open known finding.",
+        ref="DESIGN.md 5/C09", tech='Rocq proof (quoting/escape round trip for all strings; literal-block guard => block_value; tree -> layout-language document by induction; reduction of the full round trip to the layout reader) + emit/load round-trip oracle on implementation + model-vs-implementation text equality'),
     "C13": dict(
         text="Theorems C13_tokens_load / _events / _loader / _parser / _numbers: for EVERY JSON value (any depth) the parser+loader+resolver "
              "models map the token stream json_tokens v to exactly one document yaml_of_json v (numbers via the C08 completeness theorems, "
@@ -128,12 +96,8 @@ CLAIMED = {
              "bytes vs Python codecs; watchdog for termination. Known finding: a leading BOM is not skipped when loading text directly.",
         ref="DESIGN.md 5/C18", tech="Rocq proof (detection; termination under a decoder contract; constant regenerated from source) + differential correspondence vs Python codecs + watchdog"),
     "C15": dict(
-        text="Theorem C15_document_end_resets: in the parser model every successful DocumentEnd step empties the anchor table, empties the "
-             "tag-handle table unless keep_tags, keeps the state stack and lands in a document-start state (nothing but the anchor id "
-             "counter crosses a document boundary). Scanner-level locality and the composition theorem are not yet proved: accepted "
-             "streams of the C01 space are concatenated 2-4 at a time with document-end marker lines and must parse to the parts' "
-             "documents with anchors renumbered (two back-ends); cross-document alias probes; model vs implementation on the concatenations.",
-        ref="DESIGN.md 5/C15", tech="Rocq proof (parser reset at document end) + differential correspondence on concatenated streams; scanner locality partial"),
+        text="16 theorems. PARSER, all token lists: every DocumentEnd step empties the anchor table and (unless keep_tags) the tag table; renumbering (raising the anchor counter by d shifts every id by d); tail simulation; C15_composition: if 'A' and 'B' are each accepted token streams then A DocumentEnd B is accepted with events(A) followed by events(B), B's anchor ids shifted by the number of anchored nodes of A - also for parse_all, for any number of streams, and closed under gluing. SCANNER, generic over the input, all reachable states: every character-level scanner is a frame (leaves simple keys, flow level, implicit-mapping stack, queue alone); skeleton invariant (|simple keys| = flow level + 1, indent chain, length sc_ifms = flow level) preserved by fetch_next_token, hence between documents (flow level 0) there is no flow state left; after a document marker the skeleton is the post-StreamStart configuration. Missing: character-level locality tokens(A...B) = tokens(A) DocumentEnd shifted tokens(B); keep_tags = true composition. Tie/oracle: accepted streams of the C01 space concatenated 2-4 at a time with '...' lines must parse to the parts' events with anchor ids renumbered (two back-ends); regression streams of the repaired classes (4c68b1d, e9e1eb4, 3018bbd, ad74b3e); cross-document alias probes through iterator and loader. No open known finding.",
+        ref="DESIGN.md 5/C15", tech='Rocq proof (composition theorem on token streams; scanner skeleton invariant and marker reset for all reachable states) + concatenation oracle on implementation + differential correspondence'),
     "C20": dict(
         text="16 theorems over a model of derive(Hash)/Eq, OrderedFloat, hash_str_as_yaml_string and the raw-entry lookups, for ALL nodes, "
              "mappings, probe strings and every hasher finish function: equal nodes have equal hash streams (incl. borrowed/owned/marked "
@@ -142,22 +106,11 @@ CLAIMED = {
              "captures the real write_* call sequences and lookup results on 4 node types and compares them literally with the extracted model.",
         ref="DESIGN.md 5/C20", tech="Rocq proof (eq => equal hash stream; lookup agreement, all mappings) + recording-hasher correspondence + oracle on implementation"),
     "C01": dict(
-        text="Theorems: the pull parser model never panics for ANY token stream (C02 stack invariant); C01_scanner_never_panics_buffered / "
-             "C01_pipeline_never_panics_buffered: the WHOLE scanner+parser model over a buffered input of ANY capacity >= 8 never panics "
-             "for ANY input (every lookahead-contract site and every skeleton panic site of the ~70 scanner functions, proved with a WP "
-             "calculus and the skeleton invariant SInv). Termination with linear fuel is not yet a theorem: the model's OutOfFuel "
-             "outcome is a monitor on every input of the correspondence run (str, buf16, buf8 instances); the implementation is run on 6 "
-             "input back-ends x {iterator, push, peek/next, 4 loaders} with panic capture, crash detection and input-call counting "
-             "(bound 64n+4096). Known finding shared with C11: deep block nesting overflows the stack in push/load.",
-        ref="DESIGN.md 5/C01", tech="Rocq proof (parser layer: never panics, all token streams) + model monitors + differential correspondence; scanner families partial"),
+        text='14 theorems. NO PANIC: the pull parser never panics for ANY token stream (C02 stack invariant); the WHOLE scanner+parser model never panics for ANY input over a buffered input of ANY capacity >= 8 (every lookahead-contract site and every skeleton panic site of the ~70 scanner functions; WP calculus + skeleton invariant SInv) and over the string input (ported joint proof). BOUNDED WORK (string input): every scanner loop ends within the fuel F = 2|input|+10 (each iteration returns or consumes a character that is there; refresh rounds carry a finer measure), every dispatcher step is the stream-start step, consumes >= 1 character (raising the token potential by <= 5) or is the final stream end; the scanner delivers <= 5|input|+2 tokens, the parser makes <= 4*tokens+1 steps. TOGETHER (C01_pipeline_ends_properly): for EVERY input the model pipeline over the string input, given fuel linear in the input length, ends in a complete event stream or a first scan/parse error - never a panic, never fuel exhaustion. Not theorems: fuel on the buffered side and the byte-level StrInput overrides (tie), loaders (C07). Tie/oracle: 6 input back-ends (StrInput, BufferedInput, contract-CHECKING inputs of capacity 8/16/64/128) x {iterator, push, peek/next, 4 loaders} with panic capture, crash detection and input-call counting (bound 64n+4096); model instances str/buf16/buf8 must not end in MODELPANIC/MODELFUEL and must agree with the implementation. No open known finding (block nesting is limited since 99c201b).',
+        ref="DESIGN.md 5/C01", tech='Rocq proof (three joint proofs over the whole scanner model: panic freedom for buffered and string input, linear fuel sufficiency; parser potential) + panic/abort/call-count oracle on implementation + differential correspondence'),
     "C10": dict(
-        text="Theorems C10_peek_nth / C10_skip: per-operation refinement between the buffered input model of any capacity and the "
-             "string input model under the buffer relation Rel; C10_lookahead_discipline: for every capacity >= 8 and every input the "
-             "scanner never violates the input contract (so every contract-honouring input is usable). Value-level whole-scanner "
-             "simulation (same events on both back-ends) is not yet a theorem: the model's str / buf8 / buf16 / buf64 instances are run on every input and must agree with each other and with the "
-             "implementation; implementation vs implementation on StrInput, BufferedInput and contract-checking inputs of capacity "
-             "8/16/64/128: identical events, spans, error message and position.",
-        ref="DESIGN.md 5/C10", tech="Rocq proof (per-operation input refinement) + differential correspondence across back-ends; whole-scanner simulation partial"),
+        text="7 theorems. Per operation: buffered input refines string input (peek_nth, skip) under the buffer relation; for every capacity >= 8 the scanner honours the input contract. VALUE LEVEL (joint proof, relational WP between the scanner over the string input and over the buffered input of ANY capacity >= 8, incl. the paths where the back-ends genuinely differ: plain-scalar chunk refresh, block-scalar content line via buffer then raw read, wide indentation path): for all fuels the two scanner runs deliver the same token list and the same end (same error site at the same marker) - a run that breaks off for fuel delivers a prefix of the other; pipelines: run_str x = run_buf cap x unless the buffered run exhausts its fuel (the string run always ends properly by C01). Not theorems: fuel on the buffered side; the byte-level fast paths of StrInput (the model's string instance works on characters). Tie/oracle: implementation vs implementation on the C01 space plus inputs built around every buffer-dependent path: StrInput, BufferedInput and contract-checking inputs of capacity 8/16/64/128 must give identical events, spans, error message and position; model instances str/buf8/buf16/buf64 likewise and equal to the implementation.",
+        ref="DESIGN.md 5/C10", tech='Rocq proof (relational joint proof: scanner and pipeline over string and buffered input compute the same tokens/events/errors) + back-end comparison on implementation + differential correspondence'),
     "C12": dict(
         text="3 theorems. C12_scanner_positions_true / C12_pipeline_positions_true: for EVERY NUL-free input and every fuel, both "
              "markers of every token span the scanner model produces, of every event span of the whole model pipeline, and the marker "
@@ -171,10 +124,8 @@ CLAIMED = {
              "including all spans and error positions. Known finding: an embedded NUL ends the stream at a false position.",
         ref="DESIGN.md 5/C12", tech="Rocq proof (mark invariant through the whole scanner and parser model, all NUL-free inputs; recount specification) + extracted oracle on every reported marker + differential correspondence"),
     "C14": dict(
-        text="Theorem C14_positions_crlf: line/column of the image of a position are unchanged under LF -> CR LF (recount level). "
-             "Scanner-level commutation is not yet a theorem: every CR-free input is parsed as is, with CRLF and with CR on two back-ends "
-             "and must give identical events, text, line:column and error; the model is compared with the implementation on the CRLF image.",
-        ref="DESIGN.md 5/C14", tech="Rocq proof (positions under break substitution) + differential correspondence on substituted inputs; scanner commutation partial"),
+        text='6 theorems. Recount level: line and column of the image of a position are unchanged under LF -> CR LF. SCANNER + PARSER LEVEL (joint proof, relational WP between the run on a CR-free text and the run on its image under LF -> CR LF or LF -> CR, generic in the mode, independent fuels; index-valued state carried by invariants: same index shift for a possible simple key on the current line, adjacency equal on one side iff on the other): C14_crlf / C14_cr - for EVERY CR-free text the two substitutions give the same events (kind, scalar text with breaks as line feeds, style, anchor id, tag) with the same LINE and COLUMN in every span and the same end (PDone, or the same error site at the same line and column); no exception (panic and fuel are excluded by C01). Error MESSAGES are sites in the model; the tie compares messages. Tie/oracle: every CR-free input of the C01 space parsed as is, with CRLF and with lone CR on two back-ends: identical events, scalar text, line:column of every marker, verdict and error message; model vs implementation on the CRLF image.',
+        ref="DESIGN.md 5/C14", tech='Rocq proof (relational joint proof over the whole scanner + parser model: break style changes nothing but indices) + three-way comparison on implementation + differential correspondence'),
     "C17": dict(
         text="Theorems C17_histories / C17_peek_is_next / C17_nothing_after_end: for EVERY deterministic core and EVERY peek/next history "
              "the wrapper model (peek, next_event, next_event_impl) reports the results of plain iteration as specified, up to the first "
